@@ -324,13 +324,17 @@ fn run_case<F: Backend>(cx: &mut Cx, c: &Case, label: &str) {
             Ok(o) => cx.violation(format!("{}-float-slice result length", F::NAME), desc(), format!("{} values for {n} samples", o.len())),
             Err(e) => check(cx, "float-slice", Err(e)),
         }
+        // an extra (unused) variable's array may have any length: it is ignored
+        let extra_key = vindex(&var_by_index(60));
+        let extra_lens: Vec<usize> = if c.extra { vec![n, 0, n + 2] } else { vec![n] };
+        for extra_len in extra_lens {
         let r = guard(|| {
             let t = shape.ez_float_slice_tape();
             let mut e = Shape::<F>::new_float_slice_eval();
             let (xs, ys, zs) = (vec![x; n], vec![y; n], vec![z; n]);
             let mut arrays: ShapeVars<Vec<f32>> = ShapeVars::new();
             for (k, v) in (&sv).into_iter() {
-                arrays.insert(*k, vec![*v; n]);
+                arrays.insert(*k, vec![*v; if *k == extra_key { extra_len } else { n }]);
             }
             e.eval_with_transform_and_var_arrays(&t, &xs, &ys, &zs, m.as_ref().unwrap_or(&ident), &arrays)
                 .map(|o| o.to_vec())
@@ -353,7 +357,12 @@ fn run_case<F: Backend>(cx: &mut Cx, c: &Case, label: &str) {
                     }
                 }
             }
-            Err(e) => cx.violation(format!("{}-float-slice (var arrays) failed", F::NAME), desc(), e),
+            Err(e) => cx.violation(
+                format!("{}-float-slice (var arrays) failed{}", F::NAME, if extra_len != n { " although only the array of an UNUSED variable has another length" } else { "" }),
+                desc(),
+                e,
+            ),
+        }
         }
         // grad slice
         let r = guard(|| {
@@ -511,7 +520,7 @@ impl Check for C14 {
     }
     fn meta(&self, tier: Tier) -> Meta {
         Meta {
-            rule: "case = (set of variables, operand order, supply order, extra variable?); functions sum(w_i * v_i) with distinct dyadic weights over EVERY subset of {X,Y,Z} united with k free variables for k in {0,1,2,3,4,30}; written in EVERY operand order while the total is <= 6 (thorough; quick <= 5), 12 rotations/reversals above, so first-encounter numbering takes every permutation; ShapeVars filled in both orders, with and without an unrelated extra variable; evaluated through the Shape API by point, interval (degenerate box), float-slice (scalar variables and variable arrays) and grad-slice evaluators of VM and JIT with transform in {none, identity, affine, projective}; one free variable at a time removed => the error must name it (point, float-slice, bind); after a simplification that drops a variable the variable map must be unchanged and values still right; oracle: explicit map Var -> value at the f64-transformed position, exact (dyadic data; 1e-5 relative under the genuinely projective matrix, whose w depends on x and z); the grad-slice partials must equal the f64 dual-number derivative through the homogeneous transform".into(),
+            rule: "case = (set of variables, operand order, supply order, extra variable?); functions sum(w_i * v_i) with distinct dyadic weights over EVERY subset of {X,Y,Z} united with k free variables for k in {0,1,2,3,4,30}; written in EVERY operand order while the total is <= 6 (thorough; quick <= 5), 12 rotations/reversals above, so first-encounter numbering takes every permutation; ShapeVars filled in both orders, with and without an unrelated extra variable; evaluated through the Shape API by point, interval (degenerate box), float-slice (scalar variables and variable arrays; the array of an unused extra variable with the batch length, empty and longer) and grad-slice evaluators of VM and JIT with transform in {none, identity, affine, projective}; one free variable at a time removed => the error must name it (point, float-slice, bind); after a simplification that drops a variable the variable map must be unchanged and values still right; oracle: explicit map Var -> value at the f64-transformed position, exact (dyadic data; 1e-5 relative under the genuinely projective matrix, whose w depends on x and z); the grad-slice partials must equal the f64 dual-number derivative through the homogeneous transform".into(),
             bounds: match tier {
                 Tier::Quick => "all operand orders for <= 5 variables".into(),
                 Tier::Thorough => "all operand orders for <= 6 variables".into(),
